@@ -15,8 +15,10 @@
 (* type C evaluates loop arithmetic in (pw > w: promoted to a signed `int`; the *)
 (* real signed/unsigned char are (8, 24): TLC integers are 32-bit, any pw that  *)
 (* holds all intermediate values behaves like 32), and bw > 0: width of the     *)
-(* signed type in which reversed(range()) recomputes its bound when the bounds  *)
-(* are Python objects / Py_ssize_t rather than T (0: same as loop arithmetic).  *)
+(* signed type of the bounds when they are Python objects / Py_ssize_t rather    *)
+(* than T (0: bounds of type T): the bound temporaries keep that type, so the   *)
+(* reversed bound, the start expression and the limit are evaluated in it and   *)
+(* only the store into the loop variable converts to T.                         *)
 (* (w, w, 0) is the scaled image of int / long / Py_ssize_t / unsigned int.     *)
 (* One state per (type, form, step, start); the invariants quantify over every  *)
 (* stop and body, and the state's row (range length and hazard description per  *)
@@ -74,7 +76,7 @@ Obs(seq, body) == LET m == NExec(seq, body)
 (* (undefined behaviour in C), 3: value-changing store into the target type.  *)
 (* The walk stops at the first such event (cause = where it happened).        *)
 AT(t) == IF t.pw > t.w THEN [w |-> t.pw, s |-> TRUE] ELSE [w |-> t.w, s |-> t.s]
-BT(t) == IF t.bw > 0 THEN [w |-> t.bw, s |-> TRUE] ELSE AT(t)
+BT(t) == IF t.bw > 0 THEN [w |-> t.bw, s |-> TRUE] ELSE AT(t)      \* type of expressions over the bounds
 Chk(at, v) == IF InR(at.w, at.s, v) THEN 0 ELSE IF at.s THEN 2 ELSE 1
 ChkSt(t, v) == IF InR(t.w, t.s, v) THEN 0 ELSE 3
 FirstEv(cause, kinds) == LET bad == SelectSeq(kinds, LAMBDA k : k # 0)
@@ -87,7 +89,7 @@ Special(t, form, s) == ~t.s /\ Dec(form, s)
 
 \* _build_range_step_calculation: the bound from which the reversed loop starts:
 \*   s > 0:  a + k * ((b - a - 1) // k) + 1        s < 0:  a - k * ((a - b - 1) // k) - 1
-\* evaluated left to right in the bound type, then cast to the target type.
+\* evaluated left to right in the bound type (bounds of type T: then cast to T).
 \* (signed types divide with __Pyx_div_T = floor, unsigned ones with C `/`; equal while nothing wrapped)
 RevBound(t, a, b, s) ==
   LET k == Abs(s) B == BT(t) IN
@@ -96,10 +98,11 @@ RevBound(t, a, b, s) ==
            x1 == sg * (b - a)   x2 == x1 - 1
            m  == k * FloorDiv(x2, k)
            y1 == a + sg * m     y2 == y1 + sg
-       IN [v |-> y2, ev |-> FirstEv("calc", <<Chk(B, x1), Chk(B, x2), Chk(B, m), Chk(B, y1), Chk(B, y2), ChkSt(t, y2)>>)]
+       IN [v |-> y2, ev |-> FirstEv("calc", <<Chk(B, x1), Chk(B, x2), Chk(B, m), Chk(B, y1), Chk(B, y2),
+                                                IF t.bw > 0 THEN 0 ELSE ChkSt(t, y2)>>)]
 
 LoopInit(t, form, a, b, s) ==
-  LET k == Abs(s) A == AT(t) IN
+  LET k == Abs(s) A == BT(t) IN
   IF form = "fwd" THEN
      IF Special(t, form, s) THEN [v |-> a + k, ev |-> FirstEv("init", <<Chk(A, a + k), ChkSt(t, a + k)>>)]
      ELSE [v |-> a, ev |-> <<>>]
@@ -109,7 +112,7 @@ LoopInit(t, form, a, b, s) ==
        IN [v |-> p, ev |-> OrEv(b1.ev, FirstEv("init", <<Chk(A, o), Chk(A, p), ChkSt(t, p)>>))]
 LoopLimit(t, form, a, b, s) ==
   LET b2 == IF form = "fwd" THEN b ELSE a IN
-  IF Special(t, form, s) THEN [v |-> b2 + Abs(s), ev |-> FirstEv("bound", <<Chk(AT(t), b2 + Abs(s))>>)]
+  IF Special(t, form, s) THEN [v |-> b2 + Abs(s), ev |-> FirstEv("bound", <<Chk(BT(t), b2 + Abs(s))>>)]
   ELSE [v |-> b2, ev |-> <<>>]
 Cond(form, s, tv, lim) ==
   IF form = "fwd" THEN (IF s < 0 THEN tv > lim ELSE tv < lim)
